@@ -16,7 +16,7 @@
     entries in the subtree of [q] (non-preemptible ones only when [np]). *)
 From Coq Require Import List ZArith QArith.
 From KaiV Require Import Model.Status Model.Capacity Model.CapacitySpec Proofs.Capacity Proofs.CapacitySnapshot
-  Proofs.CapacityModes Proofs.CapacityNodes.
+  Proofs.CapacityModes Proofs.CapacityNodes Model.CapacityTolerance Proofs.CapacityTolerance.
 Import ListNotations.
 Open Scope Q_scope.
 
@@ -504,3 +504,60 @@ Theorem C08_mixed_gpu_models_nonvacuous :
     1 false (rd_task 2) 100 = Done (NonPreemptibleOverQuota 1).
 Proof. exact mixed_gpu_models_witness. Qed.
 Print Assumptions C08_mixed_gpu_models_nonvacuous.
+
+(** (c) No tolerance (seeded/C08-5). The gates compare exactly: a resource is
+    skipped only when the request in it is exactly zero.  So no request is too
+    small to count: for every threshold vector eps > 0 -- however small --,
+    every forest and every sequence of decisions whose admitted jobs are
+    one-pod jobs (no gpu-memory request) that an emptiness test with
+    thresholds eps (cpu < eps, memory < eps, gpu <= eps:
+    ResourceRequirements.IsEmpty with 10m / 10 MiB / 0.01) would call empty,
+    every step leaves every queue and every ancestor within its limit and,
+    with [np_only], its non-preemptible allocation within the deserved quota.
+    One-pod jobs are what an elastic workload grows by, attempt after
+    attempt. *)
+Theorem C08_tiny_requests_within_caps :
+  forall (eps : rq) (np_only : bool) (fuel : nat) (s0 s s' : state) (pre : list step) (x : step),
+    0 < r_cpu eps -> 0 < r_mem eps -> 0 < r_gpu eps ->
+    wf_forest (s_queues s0) = true -> counters_exact s0 -> ledger_nonneg s0 = true ->
+    accepts_ok wf_job (pre ++ [x]) ->
+    (forall j, In (AdmitJob j) (pre ++ [x]) -> below_tolerance eps j) ->
+    run fuel s0 pre = Done s -> do_step fuel s x = Done s' ->
+    raise_within np_only s s'.
+Proof. exact tiny_requests_within_caps. Qed.
+Print Assumptions C08_tiny_requests_within_caps.
+
+(** The variant that answers Schedulable at once for a request below the
+    code's thresholds ([run_tol code_tolerance]: isJobOverCapacity with the
+    IsEmpty shortcut in front, NOT the code) breaks both worlds of the README
+    of seeded/C08-5, which lie in the scope of the theorem above: GPU limit
+    0.02, six one-pod jobs of 0.01 GPU / 5m / 1 MB: 0.06 (the code's gates:
+    two admitted, 0.02); CPU limit 0, five pods of 5m: 25m (the code's gates:
+    none admitted). *)
+Theorem C08_tolerant_gate_refuted :
+  wf_forest (s_queues (st0 gpu_limit)) = true /\ counters_exact (st0 gpu_limit) /\
+  wf_forest (s_queues (st0 cpu_limit)) = true /\ counters_exact (st0 cpu_limit) /\
+  (forall i, below_tolerance code_tolerance (one_pod (gpu_pod i)) /\ wf_job (one_pod (gpu_pod i)) = true) /\
+  (forall i, below_tolerance code_tolerance (one_pod (cpu_pod i)) /\ wf_job (one_pod (cpu_pod i)) = true) /\
+  (exists s, run 2 (st0 gpu_limit) (jobs_of gpu_pod 6) = Done s /\ usage s GPU == 2 # 100 /\ length (s_ledger s) = 2%nat) /\
+  (exists s, run_tol code_tolerance 2 (st0 gpu_limit) (jobs_of gpu_pod 6) = Done s /\
+             usage s GPU == 6 # 100 /\ length (s_ledger s) = 6%nat /\ ~ usage s GPU <= r_gpu gpu_limit) /\
+  (exists s, run 2 (st0 cpu_limit) (jobs_of cpu_pod 5) = Done s /\ usage s CPU == 0 /\ s_ledger s = []) /\
+  (exists s, run_tol code_tolerance 2 (st0 cpu_limit) (jobs_of cpu_pod 5) = Done s /\
+             usage s CPU == 25 /\ length (s_ledger s) = 5%nat /\ ~ usage s CPU <= r_cpu cpu_limit).
+Proof. exact tolerant_gate_refuted. Qed.
+Print Assumptions C08_tolerant_gate_refuted.
+
+(** ... and its overshoot has no bound: for EVERY n the tolerant gates admit
+    all n pods of 0.01 GPU against the GPU limit 0.02, after which the queue
+    holds n * 0.01 GPUs, by its own counter and by the sum over the pods
+    charged. *)
+Theorem C08_tolerant_gate_unbounded :
+  forall n : nat, exists s,
+    run_tol code_tolerance 2 (st0 gpu_limit) (jobs_of gpu_pod n) = Done s /\
+    length (s_ledger s) = n /\
+    usage s GPU == inject_Z (Z.of_nat n) * (1 # 100) /\
+    (forall q, In q (s_queues s) -> r_gpu (q_alloc q) == inject_Z (Z.of_nat n) * (1 # 100) /\ r_gpu (q_limit q) == 2 # 100) /\
+    ((3 <= n)%nat -> ~ usage s GPU <= 2 # 100).
+Proof. exact tolerant_gate_unbounded. Qed.
+Print Assumptions C08_tolerant_gate_unbounded.
